@@ -1072,7 +1072,7 @@ def search_step_tie(c, thorough, replay_case=None):
     if replay_case is not None:
         cases = [("replay", replay_case)]
     else:
-        n = 10 if not thorough else 120
+        n = 10 if not thorough else 400
         cases = [(f"s{i}", gen_step_case(rng, i, thorough, feats)) for i in range(n)]
     results = {}
 
@@ -1116,6 +1116,9 @@ def search_step_tie(c, thorough, replay_case=None):
             agg["grammar_rejected_or_crashed"] += 1
         if r["probs"]:
             ok_all = False
+            if replay_case is not None:
+                for k, d in r["probs"][:4]:
+                    vlib.log(f"[C01] replay (search step): {k}: {json.dumps(d, default=str)[:900]}")
             if reported < 2:
                 reported += 1
                 small = shrink_step_case(cs, r, c.scratch) if replay_case is None else cs
